@@ -54,107 +54,6 @@ Section MapM.
     end.
 End MapM.
 
-(* ---------------------------------------------------------------- koto values *)
-
-(* KNumber: I64 or F64 (the float by its bit pattern) *)
-Inductive knum := NI (z : Z) | NF (bits : Z).
-
-(* KRange stands for the value kinds that are hashable but not serializable.
-   Domain of the model: no KRange in key position (its Display is not modelled),
-   and no map holding two number keys that compare equal numerically but are
-   represented differently (1 and 1.0, 0.0 and -0.0; known defect K: they hash differently). *)
-Inductive kvalue :=
-| KNull
-| KBool (b : bool)
-| KNum (n : knum)
-| KStr (s : str)
-| KList (l : list kvalue)
-| KTuple (l : list kvalue)
-| KMap (es : list (kvalue * kvalue))
-| KRange.
-
-(* KValue::is_hashable *)
-Fixpoint hashable (v : kvalue) : bool :=
-  match v with
-  | KNull | KBool _ | KNum _ | KStr _ | KRange => true
-  | KTuple l => forallb hashable l
-  | KList _ | KMap _ => false
-  end.
-
-(* ValueKey's PartialEq (+ Hash), on the model's domain *)
-Fixpoint kv_eqb (a b : kvalue) : bool :=
-  match a, b with
-  | KNull, KNull => true
-  | KBool x, KBool y => Bool.eqb x y
-  | KNum (NI x), KNum (NI y) => x =? y
-  | KNum (NF x), KNum (NF y) => x =? y
-  | KStr x, KStr y => str_eqb x y
-  | KRange, KRange => true
-  | KTuple la, KTuple lb =>
-      (fix go (la lb : list kvalue) : bool :=
-         match la, lb with
-         | [], [] => true
-         | x :: ra, y :: rb => kv_eqb x y && go ra rb
-         | _, _ => false
-         end) la lb
-  | _, _ => false
-  end.
-
-(* ValueMap (IndexMap) insert: an existing key keeps its position, its value is replaced *)
-Fixpoint kmap_insert (k v : kvalue) (m : list (kvalue * kvalue)) : list (kvalue * kvalue) :=
-  match m with
-  | [] => [(k, v)]
-  | (k', v') :: r => if kv_eqb k' k then (k', v) :: r else (k', v') :: kmap_insert k v r
-  end.
-
-Definition build_map (es : list (kvalue * kvalue)) : list (kvalue * kvalue) :=
-  fold_left (fun m kv => kmap_insert (fst kv) (snd kv) m) es [].
-
-(* ---------------------------------------------------------------- serde data model *)
-
-Inductive ikind := I8 | I16 | I32 | I64 | I128 | U8 | U16 | U32 | U64 | U128.
-
-Inductive dm :=
-| DUnit
-| DBool (b : bool)
-| DInt (k : ikind) (z : Z)
-| DF32 (bits : Z)
-| DF64 (bits : Z)
-| DChar (c : Z)
-| DStr (s : str)
-| DBytes (l : list Z)
-| DNone
-| DSome (d : dm)
-| DUStruct
-| DNStruct (d : dm)
-| DSeq (l : list dm)
-| DTuple (l : list dm)
-| DTStruct (l : list dm)
-| DMap (es : list (dm * dm))
-| DStruct (fs : list (str * dm))
-| DUVar (n : str)
-| DNVar (n : str) (d : dm)
-| DTVar (n : str) (l : list dm)
-| DSVar (n : str) (fs : list (str * dm)).
-
-Definition i64_min : Z := -9223372036854775808.
-Definition i64_max : Z := 9223372036854775807.
-Definition in_i64 (z : Z) : bool := (i64_min <=? z) && (z <=? i64_max).
-
-Definition imin (k : ikind) : Z :=
-  match k with
-  | I8 => -128 | I16 => -32768 | I32 => -2147483648 | I64 => i64_min
-  | I128 => - 2 ^ 127
-  | U8 | U16 | U32 | U64 | U128 => 0
-  end.
-Definition imax (k : ikind) : Z :=
-  match k with
-  | I8 => 127 | I16 => 32767 | I32 => 2147483647 | I64 => i64_max
-  | I128 => 2 ^ 127 - 1
-  | U8 => 255 | U16 => 65535 | U32 => 4294967295 | U64 => 2 ^ 64 - 1 | U128 => 2 ^ 128 - 1
-  end.
-Definition in_kind (k : ikind) (z : Z) : bool := (imin k <=? z) && (z <=? imax k).
-
 (* ---------------------------------------------------------------- Rust `as` casts on floats *)
 
 (* m / 2^s rounded to nearest, ties to even (s <= 0: exact left shift) *)
@@ -236,6 +135,121 @@ Definition f64_to_int_sat (lo hi b : Z) : Z :=
     let x := Z.max e 1 - 1075 in
     let t := if 0 <=? x then Z.shiftl m x else Z.shiftr m (- x) in
     clamp lo hi (if f64_sign b =? 1 then - t else t).
+
+(* ---------------------------------------------------------------- koto values *)
+
+(* KNumber: I64 or F64 (the float by its bit pattern) *)
+Inductive knum := NI (z : Z) | NF (bits : Z).
+
+(* KRange stands for the value kinds that are hashable but not serializable.
+   Domain of the model: no KRange in key position (its Display is not modelled), and no map whose
+   number keys make key equality non-transitive (two different large i64 that convert to the same
+   f64, together with that f64: the IndexMap's choice then depends on its table layout). *)
+Inductive kvalue :=
+| KNull
+| KBool (b : bool)
+| KNum (n : knum)
+| KStr (s : str)
+| KList (l : list kvalue)
+| KTuple (l : list kvalue)
+| KMap (es : list (kvalue * kvalue))
+| KRange.
+
+(* KValue::is_hashable *)
+Fixpoint hashable (v : kvalue) : bool :=
+  match v with
+  | KNull | KBool _ | KNum _ | KStr _ | KRange => true
+  | KTuple l => forallb hashable l
+  | KList _ | KMap _ => false
+  end.
+
+(* f64 `==`: NaN is equal to nothing, 0.0 == -0.0 *)
+Definition f64_eqb (x y : Z) : bool :=
+  negb (f64_is_nan x) && negb (f64_is_nan y) &&
+  ((x =? y) || (((x =? 0) || (x =? Z.shiftl 1 63)) && ((y =? 0) || (y =? Z.shiftl 1 63)))).
+
+(* impl PartialEq for KNumber: a mixed pair is compared as `a as f64 == b`
+   (impl Hash hashes the normalized f64, so keys that compare equal are found) *)
+Definition num_eqb (a b : knum) : bool :=
+  match a, b with
+  | NI x, NI y => x =? y
+  | NF x, NF y => f64_eqb x y
+  | NI x, NF y => f64_eqb (i64_to_f64 x) y
+  | NF x, NI y => f64_eqb x (i64_to_f64 y)
+  end.
+
+(* ValueKey's PartialEq (+ Hash) *)
+Fixpoint kv_eqb (a b : kvalue) : bool :=
+  match a, b with
+  | KNull, KNull => true
+  | KBool x, KBool y => Bool.eqb x y
+  | KNum x, KNum y => num_eqb x y
+  | KStr x, KStr y => str_eqb x y
+  | KRange, KRange => true
+  | KTuple la, KTuple lb =>
+      (fix go (la lb : list kvalue) : bool :=
+         match la, lb with
+         | [], [] => true
+         | x :: ra, y :: rb => kv_eqb x y && go ra rb
+         | _, _ => false
+         end) la lb
+  | _, _ => false
+  end.
+
+(* ValueMap (IndexMap) insert: an existing key keeps its position, its value is replaced *)
+Fixpoint kmap_insert (k v : kvalue) (m : list (kvalue * kvalue)) : list (kvalue * kvalue) :=
+  match m with
+  | [] => [(k, v)]
+  | (k', v') :: r => if kv_eqb k' k then (k', v) :: r else (k', v') :: kmap_insert k v r
+  end.
+
+Definition build_map (es : list (kvalue * kvalue)) : list (kvalue * kvalue) :=
+  fold_left (fun m kv => kmap_insert (fst kv) (snd kv) m) es [].
+
+(* ---------------------------------------------------------------- serde data model *)
+
+Inductive ikind := I8 | I16 | I32 | I64 | I128 | U8 | U16 | U32 | U64 | U128.
+
+Inductive dm :=
+| DUnit
+| DBool (b : bool)
+| DInt (k : ikind) (z : Z)
+| DF32 (bits : Z)
+| DF64 (bits : Z)
+| DChar (c : Z)
+| DStr (s : str)
+| DBytes (l : list Z)
+| DNone
+| DSome (d : dm)
+| DUStruct
+| DNStruct (d : dm)
+| DSeq (l : list dm)
+| DTuple (l : list dm)
+| DTStruct (l : list dm)
+| DMap (es : list (dm * dm))
+| DStruct (fs : list (str * dm))
+| DUVar (n : str)
+| DNVar (n : str) (d : dm)
+| DTVar (n : str) (l : list dm)
+| DSVar (n : str) (fs : list (str * dm)).
+
+Definition i64_min : Z := -9223372036854775808.
+Definition i64_max : Z := 9223372036854775807.
+Definition in_i64 (z : Z) : bool := (i64_min <=? z) && (z <=? i64_max).
+
+Definition imin (k : ikind) : Z :=
+  match k with
+  | I8 => -128 | I16 => -32768 | I32 => -2147483648 | I64 => i64_min
+  | I128 => - 2 ^ 127
+  | U8 | U16 | U32 | U64 | U128 => 0
+  end.
+Definition imax (k : ikind) : Z :=
+  match k with
+  | I8 => 127 | I16 => 32767 | I32 => 2147483647 | I64 => i64_max
+  | I128 => 2 ^ 127 - 1
+  | U8 => 255 | U16 => 65535 | U32 => 4294967295 | U64 => 2 ^ 64 - 1 | U128 => 2 ^ 128 - 1
+  end.
+Definition in_kind (k : ikind) (z : Z) : bool := (imin k <=? z) && (z <=? imax k).
 
 (* ---------------------------------------------------------------- serialize.rs *)
 
